@@ -51,9 +51,10 @@ def charValue (l : Bytes) : Option Nat :=
   | some (c, w) => if w = l.length then some c else none
   | none => none
 
-/-- element of a double-quoted string after the first escape / non-ASCII byte: as `escElem`, but a byte
-    that is not valid UTF-8 is refused (its replacement character would be longer than the input) -/
+/-- element of a double-quoted string: as `escElem`, but a raw CR or LF is not an element (it ends the body),
+    and a byte that is not valid UTF-8 is refused (its replacement character would be longer than the input) -/
 def strElem (l : Bytes) : Option (Nat × Nat) :=
+  if l.head? = some 13 ∨ l.head? = some 10 then none else
   match escElem 34 l with
   | some (c, w) => if c = Utf8.runeError ∧ w = 1 then none else some (c, w)
   | none => none
@@ -71,9 +72,9 @@ def plainByte (b : Nat) : Bool := b < 0x80 && b != 13 && b != 10 && b != 34 && b
 
 /-- what the body reader of a double-quoted string must answer on `r`, the bytes after the opening quote:
     (value or nothing, bytes consumed).
-    The body is a run of plain bytes; if that run is stopped by `\` or by a byte ≥ 0x80, elements follow.
-    NOTE (behaviour of the library, kept as it is): a CR or LF ends the body while only plain bytes have
-    been seen, but is accepted as an ordinary element once the element phase has started. -/
+    The body is a run of plain bytes; if that run is stopped by `\` or by a byte ≥ 0x80, elements follow
+    (plain bytes are elements too).  A raw CR or LF, a `"`, an ill-formed escape or an invalid UTF-8 byte
+    ends the body wherever it stands. -/
 def strBody (r : Bytes) : Option Bytes × Nat :=
   let i := (r.takeWhile plainByte).length
   match r.drop i with
